@@ -198,7 +198,7 @@ def seq_accounting(ctx, prog, rid):
                     for kind, bb, t, pl, loc in mine:
                         terms, cst = flow._linear(t)
                         if terms != [(1, me)] or cst != 0:
-                            bad.append('the entry at %s is numbered %s, not the reserved number itself' % (loc, flow.render(t)[:160].replace(me, 'fetch_add(..)')))
+                            bad.append('the entry at %s is numbered %s, not the reserved number itself' % (loc, flow.render(t).replace(me, 'fetch_add(..)')[:160]))
                         elif bb in b.reach(b.succ(bb), avoid_blocks=[c.bb]) or not b.dominates(c.bb, bb):
                             bad.append('the entry at %s can be built more than once per reservation (it is in a loop that does not contain the fetch_add)' % loc)
                         else:
@@ -220,7 +220,7 @@ def seq_accounting(ctx, prog, rid):
                         rest = [x for x in terms if x != (1, me)]
                         enum = [x for x in flow.walk(t) if x[0] == 'call' and x[1].endswith('Iterator::enumerate')]
                         if cst != 0 or len(rest) != 1 or len(terms) != 2 or rest[0][0] != 1:
-                            bad.append('the entry is numbered %s, not base + position' % flow.render(t)[:200].replace(me, 'fetch_add(..)'))
+                            bad.append('the entry is numbered %s, not base + position' % flow.render(t).replace(me, 'fetch_add(..)')[:200])
                         elif len(enum) != 1 or not re.search(r'\.0\.0$', rest[0][1]) or 'enumerate' not in rest[0][1]:
                             bad.append('the offset %s is not the enumerate() position of the numbering loop' % rest[0][1][:160])
                         else:
@@ -238,6 +238,7 @@ def seq_accounting(ctx, prog, rid):
                 else:
                     ctx.inst(rid, b.short, descr, False, 'fetch_add at %s reserves %s: neither 1 nor the length of the vector of entries that is numbered from it' % (c.loc, flow.render(amount)[:160]))
             # an entry built with a constant number is a placeholder that the batch numbering loop overwrites; anywhere else it is an unnumbered (seq 0 = "legacy") entry
+            has_batch = has_batch or any(n_[0] == 'assign' and any(x[0] == 'call' and len(x) > 3 and x[3] in fas for x in flow.walk(n_[2])) for n_ in numberings)
             if const_nums and not has_batch:
                 ctx.inst(rid, b.short, 'no log entry keeps a constant sequence number', False,
                          'WalEntry built with seq_no = %s at %s and no numbering loop in this function' % (flow.render(const_nums[0][2]), const_nums[0][4]))
@@ -314,6 +315,53 @@ def seq_accounting(ctx, prog, rid):
                       'restart skips it as covered by the snapshot (and compaction may unlink its segment)') if bad else
                      '%d uses (%s) all of the form next_wal_seq.load() − c with c ≥ 1' % (len(claims), ', '.join(sorted(set(w for w, _, _ in claims)))))
     return n_sites
+
+
+def baseline_snapshot(ctx, prog, rid):
+    """C02.R10: with_persistence returns Ok only after create_snapshot succeeded, or with an empty backend."""
+    f = ctx.body(rid, 'HnswBackend::with_persistence_with_hnsw_params')
+    if f is None:
+        return
+    logged = [c for b in prog.family(f) for c in b.calls_to('WalWriter::append', 'WalWriter::append_batch')]
+    if logged:
+        ctx.inst(rid, f.short, 'initial documents are durable when the constructor returns', True,
+                 'the constructor appends to the log (%s): the initial state is replayable' % logged[0].loc)
+        return
+    snaps = f.calls_to('HnswBackend::create_snapshot')
+    if not snaps:
+        ctx.inst(rid, f.short, 'initial documents are durable when the constructor returns', False,
+                 'the constructor neither logs the initial documents nor calls create_snapshot: after a restart they are gone')
+        return
+    o = flow.Origin(f)
+    S, F = [], []
+    for c in snaps:
+        s_, f_ = flow.outcome_edges(f, c)
+        S += s_ if s_ is not None else ([(c.bb, c.to)] if c.to is not None else [])
+        F += f_ or []
+    B = r'hnsw_backend::HnswBackend::HnswBackend\{'
+    empty_rx = re.compile(r'^(?:bool\[HnswBackend::is_empty\(%s.*\)\]|cmp\[\+ HnswBackend::len\(%s.*\) (?:== 0|<= 0)\]|!cmp\[\+ HnswBackend::len\(%s.*\) >= 1\])$' % (B, B, B))
+    E = [(i, tg) for i, tg, p in edges_matching(f, o, empty_rx.pattern)]
+    errs = flow.err_blocks(f)
+    r = f.reach([0], avoid_blocks=errs, avoid_edges=set(S) | set(E))
+    bad = [x for x in f.return_blocks() if x in r]
+    detail = '%d create_snapshot call(s); %d edge(s) establishing an empty backend; every Ok return is behind one of them' % (len(snaps), len(E))
+    wit = None
+    if bad:
+        path = rt.find_path(f, [0], bad, errs, set(S) | set(E)) or []
+        # the decisions that let the path go round the snapshot: the switch edges on the path from which the snapshot call is no longer reachable
+        sb = set(c.bb for c in snaps)
+        by = []
+        for a_, b_ in zip(path, path[1:]):
+            if f.blocks[a_]['t']['k'] == 'switch' and (sb & f.reach([a_])) and not (sb & f.reach([b_])) and b_ not in sb:
+                by += [p for tg, p in flow.switch_edge_predicates(f, a_, o) if tg == b_]
+        wit = rt.path_witness(f, [b_ for b_ in path if f.blocks[b_]['t']['k'] in ('switch', 'call')][-12:])
+        detail = ('an Ok return at %s is reachable without a successful create_snapshot and without the backend being empty, through the edge %s — the initial documents are in '
+                  'no snapshot and in no log segment: after a restart they are gone' % (f.loc_of(bad[0]), [x[:120] for x in by] or '?'))
+    rf = (f.reach([e[1] for e in F], avoid_blocks=errs) | set(e[1] for e in F if e[1] not in errs)) if F else set()
+    bad_f = [x for x in f.return_blocks() if x in rf]
+    if bad_f and not bad:
+        detail = 'an Ok return is reachable from a FAILED create_snapshot'
+    ctx.inst(rid, f.short, 'initial documents are durable when the constructor returns: create_snapshot ≺ Ok unless the backend is empty', not bad and not bad_f and bool(S), detail, witness=wit)
 
 
 def run(ctx, prog):
@@ -674,4 +722,9 @@ def run(ctx, prog):
                        'next_wal_seq.load() − c with c ≥ 1')
     n9 = seq_accounting(ctx, prog, 'C02.R9')
     ctx.floor('C02.R9', 'next_wal_seq.fetch_add sites', n9, 5, 'insert ×2, delete, update_metadata, batch_delete')
+    # ------------------------------------------------------------------ R10 state installed without a log entry is snapshotted before the constructor returns
+    ctx.rule('C02.R10', 'the documents handed to with_persistence are installed without a log entry (the constructor appends nothing), so the baseline snapshot is their '
+                        'only durable copy: every Ok return of the constructor lies behind the success edge of create_snapshot, except through the edge that establishes '
+                        'that the backend just built is empty (is_empty() / len() == 0) — no other condition (snapshot interval, policy, size) may bypass it')
+    baseline_snapshot(ctx, prog, 'C02.R10')
     ctx.stat('functions_analysed', len(set(i['key'].split(' | ')[1] for i in ctx.instances)))
